@@ -18,7 +18,7 @@ func init() { core.Register(c06{}) }
 func (c06) ID() string    { return "C06" }
 func (c06) Level() string { return "exploration" }
 func (c06) Rule() string {
-	return "seeded populations of 3..25 providers over the palette (several types per interface, several interfaces per type, named/unnamed, lazy/eager, with/without the func-tag methods) + consumers of every field kind {*T, I, []*T, []I, any, []any} carrying wire:\"\" / func:\"M\" / func:\"M,returns=a b\" / returns=* (optional or required); consumers are palette nodes (per-instance dynamic tags, may themselves be candidates) and reflect.StructOf holders (literal tags). Each scenario is started under 4 registration x enumeration x candidate orders. Oracle: reference model (set comprehension over the registered population) vs. black-box observation, per point: single point inside tied(S), slice == S exactly once each, never the holder, start fails iff a certainly-created component has a required point with S empty. non-trivial = some point with >= 2 candidates; distinct = canonical scenario signature; zero-size providers (distinct stateless components of several types) and wire tags whose placeholder resolves to the empty name (by-type points) take part; providers that are not pointers to structs take part; required slice points pre-populated before the start"
+	return "seeded populations of 3..25 providers over the palette (several types per interface, several interfaces per type, named/unnamed, lazy/eager, with/without the func-tag methods) + consumers of every field kind {*T, I, []*T, []I, any, []any} carrying wire:\"\" / func:\"M\" / func:\"M,returns=a b\" / returns=* (optional or required); consumers are palette nodes (per-instance dynamic tags, may themselves be candidates) and reflect.StructOf holders (literal tags). Each scenario is started under 4 registration x enumeration x candidate orders. Oracle: reference model (set comprehension over the registered population) vs. black-box observation, per point: single point inside tied(S), slice == S exactly once each, never the holder, start fails iff a certainly-created component has a required point with S empty. non-trivial = some point with >= 2 candidates; distinct = canonical scenario signature; zero-size providers (distinct stateless components of several types) and wire tags whose placeholder resolves to the empty name (by-type points) take part; providers that are not pointers to structs take part; required slice points pre-populated before the start; funcPointers family (func points on *T / []*T over unnamed + named instances of T)"
 }
 func (c06) Assumptions() []string {
 	return []string{
@@ -75,9 +75,58 @@ func (p c06) anonymous(c *core.Ctx) {
 	c.Nontrivial("anonymous|" + g.Sc.GraphSig())
 }
 
+// funcPointers: func points on concretely typed fields (*T, []*T) over a population that mixes an unnamed
+// instance of T with named ones: the slice receives every instance exposing the method (with a matching
+// result), the single point one of them per the ranking.
+func (p c06) funcPointers(c *core.Ctx) {
+	g := world.NewG(c.Rng)
+	t := []int{4, 5, 10, 12, 13}[c.Rng.Intn(5)] // types with Mark and/or Kind
+	ti := world.Palette[t]
+	if c.Rng.Intn(4) > 0 {
+		g.AddNode(t, "")
+	}
+	for x := 0; x < 1+c.Rng.Intn(3); x++ {
+		g.AddNode(t, g.FreshName(len(g.Sc.Nodes)))
+	}
+	for i := range g.Sc.Nodes {
+		g.Sc.Nodes[i].Kind = kindPool[c.Rng.Intn(len(kindPool))]
+	}
+	for x := 0; x < c.Rng.Intn(4); x++ {
+		k := g.AddRandomNode(world.TypesAll, 0.3)
+		g.Sc.Nodes[k].Kind = kindPool[c.Rng.Intn(len(kindPool))]
+	}
+	var tags []string
+	if ti.Mark {
+		tags = append(tags, "Mark")
+	}
+	if ti.Kind {
+		tags = append(tags, "Kind,returns=*", "Kind,returns="+kindPool[c.Rng.Intn(3)], "Kind,returns="+kindPool[c.Rng.Intn(3)]+" "+kindPool[c.Rng.Intn(3)])
+	}
+	pt := reflect.TypeOf(ti.New())
+	var fields []world.FieldSpec
+	for i := 0; i < 1+c.Rng.Intn(3); i++ {
+		ft := reflect.SliceOf(pt)
+		if c.Rng.Intn(3) == 0 {
+			ft = pt
+		}
+		tag := tags[c.Rng.Intn(len(tags))]
+		if c.Rng.Intn(2) == 0 {
+			tag += ",required=false"
+		}
+		fields = append(fields, world.FieldSpec{Name: fmt.Sprintf("FP%d", i), Type: ft, Tag: world.WireTag("func", tag)})
+	}
+	holders := []any{world.NewHolder(world.BuildStruct(fields))}
+	c.Count("func_points_on_concretely_typed_fields", len(fields))
+	runModelCase(c, g, holders, 2, true, nil, nil)
+}
+
 func (p c06) Run(c *core.Ctx) {
 	if c.Index%25 == 9 {
 		p.anonymous(c)
+		return
+	}
+	if c.Index%25 == 19 {
+		p.funcPointers(c)
 		return
 	}
 	mix := TagMix{ByType: 3, Func: 1.2, POptional: 0.45}
